@@ -66,8 +66,15 @@ def selection_rules(ctx):
     ok = len(loop) == 1 and norm(loop[0].iter) == "self.fields" and \
         {f"self.kept_fields.append(self.fields[{norm(loop[0].target)}])",
          f"self.kept_names.append({norm(loop[0].target)})"} <= set(allb)
-    ctx.check(ok, f"{P}.SELECTOR", site, "'all': indices and names appended together in header order",
-              f"'all' branch builds {allb}", key="all")
+    if not ok:
+        # second form: the names are the field table's keys in order and the indices are looked up from those names
+        import re as _re
+        asg = {norm(s.targets[0]): norm(s.value) for s in br.body if isinstance(s, ast.Assign)}
+        look = [a for a in allb if _re.fullmatch(
+            r"self\.kept_fields\.extend\(\(?\[?(self\.fields\.get\((\w+)\)|self\.fields\[(\w+)\]) for (\w+) in self\.kept_names\]?\)?\)", a)]
+        ok = asg.get("self.kept_names") in ("list(self.fields)", "list(self.fields.keys())") and len(look) == 1
+    ctx.decide(ok, len(loop) == 1, f"{P}.SELECTOR", site, "'all': indices and names built together in header order",
+               f"'all' branch builds {allb}", key="all")
     # else branch
     names = [s for s in br.orelse if isinstance(s, ast.Assign) and norm(s.targets[0]) == "self.kept_names"]
     vparam = "variables"
